@@ -20,7 +20,9 @@ EXPLANATION = (
     "return Ok only behind the not-all-zero edge of a comparison of the X25519 output with zeros (least "
     "fixpoint through the shared helper). MIRROR: client passes (rx,tx), server (tx,rx); both hash "
     "shared||client_pk||server_pk into 2*SESSIONKEYBYTES and split at SESSIONKEYBYTES. BEFORENM: "
-    "HSalsa20(zero input, X25519(sk, pk)).")
+    "HSalsa20(zero input, X25519(sk, pk)). PRECALC: every public two-argument constructor returning a "
+    "PrecalcSecretKey returns a value that depends on crypto_box_beforenm(both arguments) or on a constructor it "
+    "delegates to.")
 NOT_DECIDED = ("numerical correctness of the Montgomery ladder / X25519 output for every scalar and point; "
                "commutativity of DH; equality of session keys with libsodium (BLAKE2b as a function).")
 
@@ -292,3 +294,43 @@ def beforenm(rep, prog):
         pk = cm.view_info(g, list(operand_locals(s.args[2]))[0])[0]
         rep.ob("BEFORENM", "argument roles", (sk, pk) == (2, 1), "scalar <- parameter #%s (secret_key=#2), point <- #%s (public_key=#1)" % (sk, pk), loc=s.loc())
     rep.ob("BEFORENM", "found", done, "beforenm reaches a function calling crypto_scalarmult then HSalsa20")
+    precalc_objects(rep, prog)
+
+
+def precalc_objects(rep, prog):
+    """PRECALC: every public two-argument constructor of the precomputed-key object (found by return type) returns a
+    value that depends on the result of `crypto_box_beforenm` - or of another such constructor it delegates to -
+    called with both of its arguments (public key as the point, secret key as the scalar for the direct call).
+    A constructor that allocates the container and forgets the copy returns an all-zero key that still
+    round-trips with itself."""
+    from ..inline import inline
+    n = 0
+    ctors = [f for f in prog.fns if f.vis == "pub" and f.kind != "closure" and f.argc == 2 and "precalc::PrecalcSecretKey<" in f.locals[0]["t"]]
+    ckeys = {f.key for f in ctors}
+    for f0 in sorted(ctors, key=lambda f: f.path):
+        f = inline(prog, f0)
+        back = f.backward_slice([0])
+        srcs = []
+        for c in f.calls():
+            if f.blocks[c.bb]["cleanup"] or len(c.args) != 2 or c.dest is None or c.dest["l"] not in back and c.dest["l"] != 0:
+                continue
+            direct = c.rpath == "classic::crypto_box::crypto_box_beforenm" or c.path == "classic::crypto_box::crypto_box_beforenm"
+            deleg = any(g.key in ckeys and g.key != f0.key for g in prog.callee_fns(c))
+            if direct or deleg:
+                srcs.append((c, direct))
+        nm = f0.path.split("::")[-1] + ("@" + f0.path.split("::")[0])
+        n += 1
+        if not srcs:
+            rep.ob("PRECALC", nm + "|value", False, "the returned precomputed key does not depend on the result of crypto_box_beforenm "
+                   "(or of a constructor it delegates to)", loc=f.loc())
+            continue
+        ok, why = True, ""
+        for c, direct in srcs:
+            roots = [cm.view_info(f, list(operand_locals(a))[0])[0] if operand_locals(a) else None for a in c.args]
+            sl = [f.backward_slice(operand_locals(a)) for a in c.args]
+            if not (any(1 in s for s in sl) and any(2 in s for s in sl)) or len({1, 2} & sl[0] & sl[1]) == 2 and roots[0] == roots[1]:
+                ok, why = False, "%s does not receive both arguments" % c.rpath.split("::")[-1]
+            elif roots[0] == roots[1]:
+                ok, why = False, "%s receives the same argument twice" % c.rpath.split("::")[-1]
+        rep.ob("PRECALC", nm + "|value", ok, why or "returned value <- %s(both arguments)" % ", ".join(sorted({c.rpath.split("::")[-1] for c, _ in srcs})), loc=srcs[0][0].loc())
+    rep.floor("public precomputed-key constructors", n, 6)
